@@ -93,14 +93,22 @@ CLAIMED["C14"] = dict(
          "on every run (translator + kernel); the model of build.rs/phf lookup is proved exact on names, prefix-closed and "
          "empty elsewhere; the wrapping numeric accumulator with its overflow latch is proved to decide 'value > 0x10FFFF' "
          "for digit strings of any length and finish_numeric to return the standard's code point; the named-reference walk is proved to "
-         "remember exactly the longest table name that is a prefix of the text after '&' (prefix closure => nothing longer exists). The char-ref model is tied "
+         "remember exactly the longest table name that is a prefix of the text after '&' (prefix closure => nothing longer exists). RUN "
+         "LEVEL (Props/C14Run.lean): against specCharRef, a register-free transcription of the standard's character-reference "
+         "states 13.2.5.72-80 (Spec/CharRef.lean), C14_run_resolves / C14_every_reference prove that from the '&' on, in data / "
+         "RCDATA and in attribute values, the sub-tokenizer delivers exactly the standard's characters, gives back exactly the "
+         "unconsumed text in order, and reports a parse error iff the standard does - named (longest match, attribute "
+         "exception for '=' / alphanumeric followers, missing semicolon, ambiguous ampersand), numeric (no digits, missing "
+         "semicolon, 0 / out of range / surrogates -> U+FFFD, C1 table, noncharacters), neither; C14_eof_resolves for a "
+         "reference cut off by end(), C14_run_chunked for any chunking. The char-ref model is tied "
          "to the Rust by the tok correspondence; the property's finite quantifier is enumerated on the real code against an "
          "independent Python decoder (quick: a stratified subset, thorough: the full product and all numeric values).",
     note="Trusted: Lean kernel; tools/extract.py; Python's html.entities as the WHATWG reference; the Python reference "
          "decoder; phf/string_cache are modelled as a finite map. The longest-match walk is a theorem (Walk.C14_named_longest + "
          "Walk.C14_walk_is_do_named: the registers of do_named evolve as the walk, and when the buffer leaves the map the "
-         "remembered match is the longest table name that is a prefix of the text); what finish_named then does with it "
-         "(attribute-context rule, missing-semicolon error, un-consume) is carried by the correspondence and the enumeration.")
+         "remembered match is the longest table name that is a prefix of the text) and what finish_named then does with it is "
+         "part of C14_run_named. Spec/CharRef.lean was additionally compared outside Lean with a literal Python state machine "
+         "of 13.2.5.72-80 on 128k texts x 2 contexts (0 mismatches).")
 
 CLAIMED["C07"] = dict(
     engine="ser", design_ref="6.7",
@@ -349,16 +357,21 @@ CLAIMED["C03"] = dict(
          "single-character chunks included), every start state, sink policy and exact_errors setting: the chunked session "
          "and the one-piece run deliver the same (token, line) sequence including parse errors and Script/EncodingIndicator "
          "pause positions; C03_chunked_then_end extends it across Tokenizer::end (pending character reference, final run at "
-         "EOF, eof_step loop): chunks then end() = one piece then end(). The proof rests on three per-step theorems (a completed step is unaffected by appended input; a "
+         "EOF, eof_step loop): chunks then end() = one piece then end(). TREE LEVEL (Props/C03Tree.lean): the tree-builder "
+         "model is insensitive to how character runs are cut into character tokens - C03_tb_char_split (one token a++b vs two "
+         "tokens a, b from related states, all 21 insertion modes, foreign content, foster-parented and pending table text, "
+         "ignore_lf), C03_tb_sim_step (congruence for every token), C03_tree_merge_obs: token lists equal after merging "
+         "adjacent character tokens give the same DOM, quirks mode and pause answers, for documents and fragments (the number "
+         "of tree-builder parse errors legitimately depends on the cut and is not part of the observation). The proof rests on three per-step theorems (a completed step is unaffected by appended input; a "
          "suspended step has consumed everything and re-executes like the step on the concatenation; an invariant on "
          "temp_buf/ignore_lf/reconsume is preserved by all 73 states) and a simulation that ignores the dead current_char. "
          "The model is tied to tokenizer/mod.rs + char_ref/mod.rs by the tok correspondence on ~150k chunked cases per quick "
          "run (every boundary position of every cover input); the same cases decide chunked = whole on the real code, and "
          "text injected at a script pause is compared with the same text written inline.",
     note="Trusted: Lean kernel; the hand-written tokenizer model + tok correspondence; BufferQueue abstracted to a flat list "
-         "(C13); bulk reads modelled per character (tokens compared after merging character runs). Not covered by the theorem: "
-         "tree-builder level chunk independence (checked on the real code by the tree-builder engine), termination of runs "
-         "(C04: separate theorem).")
+         "(C13); bulk reads modelled per character (tokens compared after merging character runs). Not one theorem: the composition of the "
+         "tokenizer theorem with the tree-level theorem through the joint driver (checked end to end on the real code by the "
+         "chunked-vs-whole tree oracle); termination of runs is C04.")
 
 CLAIMED["C08"] = dict(
     engine="tok", design_ref="6.8",
